@@ -28,7 +28,8 @@ struct Config {
   int spurious_ppm = 0;    // buggify: cv / atomic wait returns spuriously (legal per standard)
   unsigned hw_concurrency = 8;
   uint64_t noprogress_limit = 20000;  // livelock: unpark-all rounds without any progress
-  uint64_t opp_cap = 0;    // 0 = none; backstop reported as class "stepcap" (harness-level, not a verdict)
+  uint64_t opp_cap = 0;    // 0 = none; backstop for livelocks that make "progress" (spinning RMWs): set by each driver to
+                           // >=1000x the largest run seen on the unchanged tree, reported as class "livelock"
   int keep_log = 0;        // keep full event log (replay mode)
 };
 
@@ -79,6 +80,8 @@ int object_id(const void* obj);
 extern "C" {
 #endif
 
+// set by the harness-side __tsan_on_report hook; turned into fail("race") at the next scheduling point
+extern volatile int vsim_race_flag;
 // C entry points (cprelude.h)
 void vsim_c_point(int kind, const void* obj, int mo);
 void vsim_c_loaded(const void* obj, unsigned long long v);
